@@ -70,14 +70,15 @@ QDialog {
 """
 
 
-def translate(env, qml_text, type_name, workdir, no_dyn=False, hash_seed=1, incremental=True):
+def translate(env, qml_text, type_name, workdir, no_dyn=False, hash_seed=1, incremental=True, prev_qml=None):
     """run the real binary on one document -> dict(exit, stderr, ui, header).
     The header is emitted the way a build system gets it: by the second of two invocations of one process over several
     sources, where an earlier-named source (a fixed companion) is already up to date on disk."""
     os.makedirs(workdir, exist_ok=True)
     src = os.path.join(workdir, type_name + ".qml")
     with open(src, "w", encoding="utf-8") as f:
-        f.write(qml_text)
+        f.write(prev_qml if prev_qml is not None else qml_text)
+    low = type_name.lower()
     argv = ["generate-ui", "--foreign-types", env.metatypes, "--foreign-types", sim_metatypes()]
     if no_dyn:
         argv.append("--no-dynamic-binding")
@@ -89,9 +90,20 @@ def translate(env, qml_text, type_name, workdir, no_dyn=False, hash_seed=1, incr
         kernel.run(env, workdir, argv + ["Companion0.qml"], hash_seed=hash_seed, dirent_seed=1, io_dir=os.path.join(workdir, "io"))
         argv += ["Companion0.qml"]
     argv.append(type_name + ".qml")
+    prev = None
+    if prev_qml is not None:
+        # the earlier version of the document is translated first; then the document replaces it and is translated
+        # over whatever that left
+        r0 = kernel.run(env, workdir, argv, hash_seed=hash_seed, dirent_seed=1, io_dir=os.path.join(workdir, "io"))
+        prev = {"exit": r0.exit_status, "ui": None, "header": None}
+        for key, fn in (("ui", low + ".ui"), ("header", "uisupport_" + low + ".h")):
+            p = os.path.join(workdir, fn)
+            if os.path.exists(p):
+                prev[key] = open(p, encoding="utf-8", errors="replace").read()
+        with open(src, "w", encoding="utf-8") as f:
+            f.write(qml_text)
     res = kernel.run(env, workdir, argv, hash_seed=hash_seed, dirent_seed=1, io_dir=os.path.join(workdir, "io"))
-    out = {"exit": res.exit_status, "signal": res.signal, "stderr": res.stderr, "ui": None, "header": None}
-    low = type_name.lower()
+    out = {"exit": res.exit_status, "signal": res.signal, "stderr": res.stderr, "ui": None, "header": None, "prev": prev}
     for key, fn in (("ui", low + ".ui"), ("header", "uisupport_" + low + ".h")):
         p = os.path.join(workdir, fn)
         if os.path.exists(p):
